@@ -12,7 +12,7 @@ from c03 import rlit
 def check(rep, tier):
     rng = random.Random(rep.seed)
     errs = translator.regenerate()
-    ok, msg = common.proof_stage(rep, "C20", [])
+    ok, msg = common.proof_stage(rep, "C20", ["theories/model/Sn1DF.vo", "theories/model/Sn2DF.vo"])
     if errs.get("utils"):
         ok, msg = False, errs["utils"]
     rep.rule = ("(a) the theorems are stated about Coq definitions regenerated from utils.py by the translator on every run; (b) certificates: at random temperatures "
@@ -56,6 +56,8 @@ def check(rep, tier):
             rep.violation("flux-kappa", "flux does not increase with the evaporation coefficient", dict(kappa=kap, kappa2=k2))
     # ---- (d) vacuum window: a VISF run equals the shelf run outside the window (1D; 2D in the thorough tier) ------------
     import snowing_runs as sr
+    import c07
+    wc1, wl1, wc2, wl2 = [], [], [], []
     prog = dict(start=20, end=-50, rate=2 / 60, holds=[], t_tot=9000.0, dt=1.0)
     for dim in (["spatial_1D"] if tier == "quick" else ["spatial_1D", "spatial_2D"]):
         geo = dict(height=0.05, diameter=0.05 if dim == "spatial_1D" else 0.1, K=300)
@@ -64,6 +66,10 @@ def check(rep, tier):
             for ts, td, kind in ((5.0, 0.1, "after-the-process"), (0.2, 0.1, "inside")):
                 Sv = sr.make(dim=dim, conf="VISF", prog=prog, extra={"VISF": {"t_vac_start": ts, "t_vac_duration": td, "kappa": 0.01}}, **geo); sr.run(Sv)
                 rep.case(("window", dim, kind), True)
+                if kind == "inside":
+                    dtv, _ = sr.step_info(Sv)
+                    (wc1 if dim == "spatial_1D" else wc2).append((sr.sn1d_case if dim == "spatial_1D" else sr.sn2d_case)(Sv, dtv, rng)[0])
+                    (wl1 if dim == "spatial_1D" else wl2).append("%s VISF window %g h + %g h" % (dim, ts, td))
                 Ta, Tb = np.asarray(Sshelf.temp), np.asarray(Sv.temp)
                 ta, tb = np.asarray(Sshelf.time) * 3600, np.asarray(Sv.time) * 3600
                 if kind == "after-the-process":
@@ -83,6 +89,18 @@ def check(rep, tier):
                             rep.violation("window-no-cooling", "%s: inside the vacuum window the top surface is not colder than in the shelf run (%r vs %r)" % (dim, top_v, top_s), dict(dim=dim))
         except Exception as e:
             rep.violation("window-run-crash %s" % type(e).__name__, "%s VISF/shelf comparison raises %r" % (dim, e), dict(dim=dim))
+    # the step models the window theorems speak about, tied to the runs with the window inside the process
+    if wc1:
+        rc1, out1 = common.coq_eval("c20_w1", c07.HEAD % (common.coq_list(wc1), "(@nil (@Sn1D.p1d PrimFloat.float * PrimFloat.float * list (PrimFloat.float * PrimFloat.float * PrimFloat.float) * list (PrimFloat.float * PrimFloat.float * PrimFloat.float * PrimFloat.float) * list (PrimFloat.float * PrimFloat.float * PrimFloat.float * PrimFloat.float * PrimFloat.float)))"), timeout=900)
+        bl = common.eval_blocks(out1)
+        if rc1 != 0 or len(bl) != 2:
+            rep.violation("correspondence-run", "Coq evaluation of the 1D window case failed: " + out1[-400:], dict(log=out1[-1500:]), found_input=False)
+        else:
+            bad = common.parse_nat_list(bl[0])
+            rep.coverage["traces_validated_against_impl"] = len(wc1) - len(bad)
+            for b in bad:
+                rep.violation("model-vs-impl window", "one-step correspondence model/Sn1D.v <-> _run_1D no longer checks on %s" % wl1[b], dict(correspondence="model/Sn1D.v", run=wl1[b]), found_input=False)
+    c07.coq_2d(rep, wc2, wl2, "c20_w2")
     # ---- (b) certificates: generated R definitions agree with the Python functions ----------------------------
     goals = []
     ncert = 20 if tier == "quick" else 400
